@@ -153,6 +153,10 @@ def count_violations(fnode, queue="_msg_queue", methods=None):
     of another method of the class counts as one when every non-raising path through that method dispatches or enqueues exactly
     once (the per-message step may live in a helper method)."""
     from ..cfg import function_path_counts
+    from ..fuse import fuse_method_loops
+    if methods:
+        # a receive loop split into a generator method (receive) and its consumer (dispatch) is the one loop it amounts to
+        fnode, _nf = fuse_method_loops(fnode, methods)
     g = CFG(fnode)
     heads = [n for n in g.nodes if n.kind == "loop" and isinstance(n.stmt, ast.While)]
     if len(heads) != 1:
